@@ -29,6 +29,7 @@ def run(ck):
                  for i, f in enumerate(files)])
     ck.validate_traces('RoundTrip', 'Trace_RoundTrip.cfg', files, timeout=3000, jvm=['-Xss64m'])
     isa_common.family_check(ck, FAMILY, ck.pick(4, 12), 'c08', rounds=ck.pick(1, 2))
+    isa_common.sweep_all(ck, 'c08', seedoff=800)
     ck.assumptions += isa_common.ISA_ASSUMPTIONS + [
         'product push/pop is stated with the product shifter off (C04 makes every product read apply the shift, so a '
         'shifted push cannot restore the raw product); status words are compared on their writable bits']
